@@ -90,7 +90,8 @@ def check_get_last(ref, W, s, key):
     except Exception as e:  # noqa
         return [dict(signature=f"get_last/exception/{type(e).__name__}", observed=repr(e)[:120], expected="a Sid")], "exception"
     srch = x.get_with(key=k, value=">")
-    typed = [(u.type, u.string) for u in unfold_search(srch)] if srch else []
+    from mc.ref import search as rs
+    typed = rs.denoted_typed(ref, srch.string, [(u.type, u.string) for u in unfold_search(srch)]) if srch else []
     exp, _ = W.store.do_find("all", typed)
     want = sorted(exp)[0] if len(exp) == 1 else ""
     if len(exp) > 1:
